@@ -19,6 +19,7 @@ def make_spec(hist):
         for c in ("Mul0", "Mul1", "Add0"):
             local.append({"name": c + cfg[-1], "class": "compute", "attributes": {"type": "mul" if c[0] == "M" else "add"}})
         local.append({"name": "Isect" + cfg[-1], "class": "Intersector", "attributes": {"type": "two-finger"}})
+        local.append({"name": "Seq" + cfg[-1], "class": "Sequencer", "attributes": {"num_ranks": 3}})
         local.append({"name": "Mem" + cfg[-1], "class": "DRAM", "attributes": {"bandwidth": 128}})
         # a merger is NOT a functional component: sharing it between Einsums must not influence the blocks
         local.append({"name": "Mrg" + cfg[-1], "class": "Merger", "attributes": {"inputs": 16, "comparator_radix": 16, "outputs": 1, "order": "fifo", "reduce": False}})
@@ -33,6 +34,8 @@ def make_spec(hist):
         for c, nonempty in h["comps"]:
             if c.startswith("Isect"):
                 b.append({"component": c, "bindings": [{"rank": "K"}] if nonempty else []})
+            elif c.startswith("Seq"):
+                b.append({"component": c, "bindings": [{"rank": r} for r in h["loop"][:2]] if nonempty else []})
             elif c.startswith("Mem"):
                 b.append({"component": c, "bindings": [{"tensor": "A", "rank": "K", "type": "payload", "format": "default"}] if nonempty else []})
             elif c.startswith("Mrg"):
@@ -103,7 +106,7 @@ def gen_hist(rng, n):
             cfg = hist[-1]["config"]
         else:
             cfg = rng.choice(["CfgA", "CfgA", "CfgB"])
-        pool = [c + cfg[-1] for c in ("Mul0", "Mul1", "Add0", "Isect", "Mem", "Mrg")]
+        pool = [c + cfg[-1] for c in ("Mul0", "Mul1", "Add0", "Isect", "Seq", "Mem", "Mrg")]
         comps = [(c, rng.random() < 0.85) for c in rng.sample(pool, rng.choice([0, 1, 1, 1, 2, 2, 3]))]
         hist.append(dict(loop=loop, space=space, config=cfg, comps=comps))
     return hist
@@ -117,7 +120,7 @@ def gen_hist_merger(rng, n):
     cfg = rng.choice(["CfgA", "CfgB"])
     hist = []
     for i in range(n):
-        units = rng.sample(["Mul0", "Mul1", "Add0", "Isect"], rng.choice([1, 1, 2]))
+        units = rng.sample(["Mul0", "Mul1", "Add0", "Isect", "Seq"], rng.choice([1, 1, 2]))
         comps = [(u + cfg[-1], True) for u in units]
         if rng.random() < 0.75:
             comps.insert(rng.randint(0, len(comps)), ("Mrg" + cfg[-1], True))
